@@ -380,7 +380,7 @@ where
                     let os_ipc_shared_memory_regions;
                     let os_ipc_channels;
                     {
-                        bincode::serialize_into(&mut bytes, &data)?;
+                        let result = bincode::serialize_into(&mut bytes, &data);
                         os_ipc_channels = mem::replace(
                             &mut *os_ipc_channels_for_serialization.borrow_mut(),
                             old_os_ipc_channels,
@@ -389,6 +389,10 @@ where
                             &mut *os_ipc_shared_memory_regions_for_serialization.borrow_mut(),
                             old_os_ipc_shared_memory_regions,
                         );
+                        // Error check comes after restoring the thread-local lists,
+                        // so that a failed serialization does not leave its attachments behind
+                        // (nor lose those of an enclosing send).
+                        result?;
                     };
                     Ok(self.os_sender.send(
                         &bytes[..],
